@@ -47,7 +47,7 @@ const CRASH_ASSUME: &[&str] = &[
 ];
 
 pub fn spec(prop: &str) -> Option<CheckSpec> {
-    let hw_rule = "trials = (instruction bytes, 16 GPRs, 6 status flags + DF, 16 XMM, FS/GS base, memory patches over 5 mirrored regions), generated per instruction form by an encoder-driven generator (G1), byte-level mutation (G2) and the enumerations listed in exhaustive_subspaces; each trial is single-stepped on the CPU under ptrace and on a mirror Axecutor and the complete post-states are compared. distinct_nontrivial = number of distinct (iced Code, operand-shape tuple, outcome class) triples among executed trials, outcome class in {agree-state-changed, agree-no-change, both-fault, disagree}.";
+    let hw_rule = "trials = (instruction bytes, 16 GPRs, 6 status flags + DF, 16 XMM, FS/GS base, memory patches over 5 mirrored regions), generated per instruction form by an encoder-driven generator (G1), byte-level mutation (G2) and the enumerations listed in exhaustive_subspaces; each trial is single-stepped on the CPU under ptrace and on a mirror Axecutor and the complete post-states are compared. In a quarter of the trials the mirror carries empty areas created before the regions (at the addresses the trial touches, sometimes on region starts); in one of eight a before hook of the mnemonic of the instruction calls stop(). Neither exists on the CPU side; both must be invisible. distinct_nontrivial = number of distinct (iced Code, operand-shape tuple, outcome class) triples among executed trials, outcome class in {agree-state-changed, agree-no-change, both-fault, disagree}.";
     Some(match prop {
         "C01" => CheckSpec {
             info: PropInfo { id: "C01", engine: "hw", rule: hw_rule, assumptions: HW_ASSUME, floor: (50_000, 1_000_000), exhaustive_subspaces: &["census: every form listed in baseline/forms_pinned.txt is replayed"] },
@@ -82,7 +82,7 @@ pub fn spec(prop: &str) -> Option<CheckSpec> {
             finalize: None,
         },
         "C09" => CheckSpec {
-            info: PropInfo { id: "C09", engine: "model", rule: "every access path (12 API accessors, guest load/store/read-modify-write, MOVUPS load/store, PUSH, POP, CALL, RET, instruction fetch) under every one of the 8 permission masks: on a fresh area, on the constructor's code area (default mask and after mem_prot), in histories where mem_prot changes the mask between accesses, and on machines loaded from the bundled and from generated ELF files (area mask must equal the segment flags). Necessity (missing bit => Err and the complete area list unchanged) is judged for all masks; success is demanded only for masks real paging can express (R, RW, RX, RWX). distinct_nontrivial = distinct (configuration, mask, path) triples.", assumptions: MODEL_ASSUME, floor: (2_000, 200_000), exhaustive_subspaces: &["8 masks x 22 access paths on a fresh area", "constructor code area: default mask + 8 masks x 22 access paths"] },
+            info: PropInfo { id: "C09", engine: "model", rule: "every access path (12 API accessors, guest load/store/read-modify-write, MOVUPS load/store, PUSH, POP, CALL, RET, instruction fetch) under every one of the 8 permission masks: on a fresh area, on the constructor's code area (default mask and after mem_prot), in histories where mem_prot changes the mask between accesses, and on machines loaded from the bundled and from generated ELF files (area mask must equal the segment flags). Necessity (missing bit => Err and the complete area list unchanged) is judged for all masks; success is demanded only for masks real paging can express (R, RW, RX, RWX). Heap histories: host masks on the brk heap must survive guest brk calls; generated ELF files include rich ones (unassigned p_flags bits). distinct_nontrivial = distinct (configuration, mask, path) triples.", assumptions: MODEL_ASSUME, floor: (2_000, 200_000), exhaustive_subspaces: &["8 masks x 22 access paths on a fresh area", "constructor code area: default mask + 8 masks x 22 access paths"] },
             finalize: None,
         },
         "C10" => CheckSpec {
@@ -90,11 +90,11 @@ pub fn spec(prop: &str) -> Option<CheckSpec> {
             finalize: None,
         },
         "C17" => CheckSpec {
-            info: PropInfo { id: "C17", engine: "model", rule: "init_stack_program_start over generated argv/envp lists (0-300 entries, strings from empty to 4 KiB, non-ASCII, odd and even totals, frames larger than the requested stack) x stack sizes {0, 8, 16, 24, 33, 256, 4 KiB, 4097, 64 KiB, 128 KiB} x machines from new() (code low/high, extra low areas) and from generated and bundled ELF files. Observation is guest-side: argc+envc+3 POP instructions are stepped and RAX read after each; strings are read byte-wise until NUL; the area list (hook) gives freshness, writability and disjointness. distinct_nontrivial = distinct (machine kind, stack size, argv count class, envp count class, parity of the frame) tuples.", assumptions: MODEL_ASSUME, floor: (2_000, 100_000), exhaustive_subspaces: &[] },
+            info: PropInfo { id: "C17", engine: "model", rule: "init_stack_program_start over generated argv/envp lists (0-300 entries, strings from empty to 4 KiB, non-ASCII, odd and even totals, frames larger than the requested stack) x stack sizes {0, 8, 16, 24, 33, 256, 4 KiB, 4097, 64 KiB, 128 KiB} x machines from new() (code low/high, extra low areas) and from generated and bundled ELF files. Observation is guest-side: argc+envc+3 POP instructions are stepped and RAX read after each; strings are read byte-wise until NUL; the area list (hook) gives freshness, writability and disjointness. The first and last byte of every string take a real store. distinct_nontrivial = distinct (machine kind, stack size, argv count class, envp count class, parity of the frame) tuples.", assumptions: MODEL_ASSUME, floor: (2_000, 100_000), exhaustive_subspaces: &[] },
             finalize: None,
         },
         "C13" => CheckSpec {
-            info: PropInfo { id: "C13", engine: "model", rule: "histories of 20-70 guest operations with the built-in brk handler installed: brk(0) queries, moves of the break to base+n (grow, shrink, regrow, sizes from bytes to MiB), guest byte/qword stores and loads inside [base, break) at the edges and in the middle, under random surrounding layouts (areas where the heap is first tried, an area directly above the heap). Model = (base, break, map of bytes the guest stored that stayed below the break); base := first brk(0). The area-list invariant hook of C10 runs after every operation. When growth would run into another area only 'no overlap, no crash' is demanded (counted). distinct_nontrivial = distinct (operation, direction/position, collision) tuples.", assumptions: MODEL_ASSUME, floor: (20_000, 1_000_000), exhaustive_subspaces: &[] },
+            info: PropInfo { id: "C13", engine: "model", rule: "histories of 20-70 guest operations with the built-in brk handler installed: brk(0) queries, moves of the break to base+n (grow, shrink, regrow, sizes from bytes to MiB), guest byte/qword stores and loads inside [base, break) at the edges and in the middle, under random surrounding layouts (areas where the heap is first tried, an area directly above the heap). Model = (base, break, map of bytes the guest stored that stayed below the break); base := first brk(0). The area-list invariant hook of C10 runs after every operation. When growth would run into another area only 'no overlap, no crash' is demanded (counted). Compare/test forms look at heap bytes (which must not change); an empty area above the break gets new masks mid-run. distinct_nontrivial = distinct (operation, direction/position, collision) tuples.", assumptions: MODEL_ASSUME, floor: (20_000, 1_000_000), exhaustive_subspaces: &[] },
             finalize: None,
         },
         "C14" => CheckSpec {
@@ -114,7 +114,7 @@ pub fn spec(prop: &str) -> Option<CheckSpec> {
             finalize: None,
         },
         "C11" => CheckSpec {
-            info: PropInfo { id: "C11", engine: "events", rule: "structured random programs x configurations {no limit, every instruction limit 0..len+2 (sampled for long programs), scripted before/after hooks on 8 mnemonics that stop at executed count k, with or without init_stack}: twin A runs execute(), twin B is stepped; after EVERY step of B the harness checks the executed count (+1), RIP against its own decode of the bytes at the old RIP for non-transfer instructions, the finished accessor against the three finish conditions (RIP == end of code, top-level RET on an empty stack, hook stop) and the return value; refused steps (after finish / at the limit) must leave a full-state snapshot unchanged; the twins' results, error texts and final snapshots must be equal; two further steps after the end must fail and change nothing. distinct_nontrivial = distinct (mnemonic, finish-condition flags) step tuples plus (limit?, stop phase, terminal condition) configuration triples.", assumptions: EVENT_ASSUME, floor: (50_000, 3_000_000), exhaustive_subspaces: &["for programs of natural length <= 10: every instruction limit 0..len+2"] },
+            info: PropInfo { id: "C11", engine: "events", rule: "structured random programs x configurations {no limit, every instruction limit 0..len+2 (sampled for long programs), scripted before/after hooks on 8 mnemonics that stop at executed count k, with or without init_stack}: twin A runs execute(), twin B is stepped; after EVERY step of B the harness checks the executed count (+1), RIP against its own decode of the bytes at the old RIP for non-transfer instructions, the finished accessor against the three finish conditions (RIP == end of code, top-level RET on an empty stack, hook stop) and the return value; refused steps (after finish / at the limit) must leave a full-state snapshot unchanged; the twins' results, error texts and final snapshots must be equal; two further steps after the end must fail and change nothing. Driver events identical on both twins: a second executable area mapped before / during the run, an already executed instruction overwritten by the host (always under a limit); stacks from init_stack, a plain area, or init_stack_program_start. distinct_nontrivial = distinct (mnemonic, finish-condition flags) step tuples plus (limit?, stop phase, terminal condition) configuration triples.", assumptions: EVENT_ASSUME, floor: (50_000, 3_000_000), exhaustive_subspaces: &["for programs of natural length <= 10: every instruction limit 0..len+2"] },
             finalize: None,
         },
         "C12" => CheckSpec {
@@ -126,7 +126,7 @@ pub fn spec(prop: &str) -> Option<CheckSpec> {
             finalize: None,
         },
         "C20" => CheckSpec {
-            info: PropInfo { id: "C20", engine: "events", rule: "structured random programs (optionally with the built-in brk/arch_prctl/exit handlers and a scripted MOV hook) whose explicit inputs are: code, memory, flags and a random SUBSET of the registers; (a) two machines built independently in one process (they differ in the constructor's random registers and in every HashMap's RandomState) and (b) the same program in 4 separate worker processes. iced's used-register analysis truncates a run before the first instruction that reads a register nothing has defined, so any remaining difference is a dependence on something the instruction does not name. Compared: result and full error text, every defined GPR/XMM register, RIP, flags, executed count, finished, every area (extent, permissions, contents), structured trace, call stack, rendered trace, FS/GS. distinct_nontrivial = distinct (terminal condition, hooks?, syscalls?, number of undefined registers) tuples. The pipe handler (whose descriptor numbers are the stated exception) is not installed.", assumptions: EVENT_ASSUME, floor: (5_000, 500_000), exhaustive_subspaces: &[] },
+            info: PropInfo { id: "C20", engine: "events", rule: "structured random programs (optionally with the built-in brk/arch_prctl/exit handlers and a scripted MOV hook) whose explicit inputs are: code, memory, flags and a random SUBSET of the registers; (a) two machines built independently in one process (they differ in the constructor's random registers and in every HashMap's RandomState) and (b) the same program in 4 separate worker processes. iced's used-register analysis truncates a run before the first instruction that reads a register nothing has defined, so any remaining difference is a dependence on something the instruction does not name. Compared: result and full error text, every defined GPR/XMM register, RIP, flags, executed count, finished, every area (extent, permissions, contents), structured trace, call stack, rendered trace, FS/GS. Every second cross-process replica runs another machine (other code, same addresses) first; one machine in six uses a plain area as its stack. distinct_nontrivial = distinct (terminal condition, hooks?, syscalls?, number of undefined registers) tuples. The pipe handler (whose descriptor numbers are the stated exception) is not installed.", assumptions: EVENT_ASSUME, floor: (5_000, 500_000), exhaustive_subspaces: &[] },
             finalize: Some(c20::finalize),
         },
         _ => return None,
